@@ -1,4 +1,6 @@
 import BstreamVerif.Lemmas.StepCheckSound
+import BstreamVerif.Lemmas.CursorLib
+import BstreamVerif.Props.C01
 /-!
 # C04 — every delivered event carries a cursor describing the consumer position exactly
 
@@ -51,5 +53,31 @@ theorem segments_meet_at_junction (db : DB) (oldHead newPrev : Id) (undo redo : 
     IsDown db (undo ++ [j]) ∧ IsPath db j redo ∧ topOf j redo = newPrev ∧ j ∉ undo ∧ (undo = [] → j = oldHead) := by
   obtain ⟨_, h2, _, h4, h5, h6, _, h8⟩ := chainSwitchSegments_sound db oldHead newPrev undo redo j h
   exact ⟨h2, h5, h6, h8, h4⟩
+
+/-- **the cursor LIB of every event** (forkable that knows its LIB, any handler failure point): Undo and New events
+    carry the buffer's LIB as it was when the block came in — the last block announced irreversible, or the starting
+    LIB (`Inv.seen`) —, Irreversible events carry themselves, and nothing else is delivered but Stalled events -/
+theorem cursor_lib_of_every_event (cfg : Config) (s : FState) (P : List Id) (b : Blk) (f : Option Nat) (hI : Inv s P)
+    (hni : s.includeInit = false ∨ s.lastSent.isSome = true ∨ b.id ≠ s.db.libRef.id) :
+    ∀ e ∈ (processBlock cfg s b f).2.1,
+      ((e.step = .undo ∨ e.step = .new) ∧ e.lib = s.db.libRef) ∨ (e.step = .irreversible ∧ e.lib = e.blk.ref) ∨
+      e.step = .stalled := by
+  have := processBlock_cursor_lib cfg s b f hni hI.libNe
+  rw [cursorLIB_of_inv s P hI] at this
+  exact this
+
+/-- **the LIB height never decreases**: one `ProcessBlock` leaves the LIB where it was or moves it to a higher block -/
+theorem lib_height_never_decreases (cfg : Config) (hnew : cfg.matches .new = true) (hundo : cfg.matches .undo = true)
+    (hirr : cfg.matches .irreversible = true) (s : FState) (P : List Id) (b : Blk) (hI : Inv s P)
+    (hok : Props.C01.StepOK s b) :
+    s.db.libRef.num ≤ (processBlock cfg s b none).1.db.libRef.num := by
+  obtain ⟨_, _, _, _, _, hshape⟩ := processBlock_step cfg hnew hundo hirr s P b hI hok.1 hok.2.1 hok.2.2.1 hok.2.2.2.1 hok.2.2.2.2
+  rcases hshape with ⟨h, _⟩ | ⟨_, db2, hsb, h | ⟨R, er, h, _, _, hup⟩⟩
+  · rw [h]; exact Nat.le_refl _
+  · rw [h, hsb.1]; exact Nat.le_refl _
+  · rw [h]
+    show s.db.libRef.num ≤ R.num
+    have : db2.libRef = s.db.libRef := hsb.1
+    rw [this] at hup; omega
 
 end BstreamVerif.Props.C04
